@@ -75,7 +75,7 @@ def _end(p, rec, method, raised, lines):
             "valid": bool(p.is_valid),
             "match_count": p.match_count,
             "scan_count": p.scan_count,
-            "printed": [txt(s) for s in cap.lines if not runner.ERRLINE.match(s)], "nerrors": len(p.errors) if p.errors else 0,
+            "printed": [txt(s) for s in cap.lines], "nerrors": len(p.errors) if p.errors else 0,
             "checkStdout": False, "stdout": [],
             "checkLines": lines is not None and not raised,
             "lines": [[runtrace._cell(c) for c in l] for l in (lines or [])] if not raised else [],
